@@ -12,6 +12,10 @@ def const(w):
     return {'c': w}
 
 
+K10 = 'replay-inside-recorded-operation-restarts-output-numbering'
+K10_PREFIX = 'replay inside a recorded operation (K10): '
+
+
 class C03(RecorderProp):
     ID = 'C03'
     RULE = ('pairs (recorded program P, replayed program P\' = P or a behavioural edit of P: changed output argument, dropped / '
@@ -145,22 +149,33 @@ class C03(RecorderProp):
         # + operations whose outputs are sent by worker threads and, on the same aliases, by the operation's own thread before it
         # starts / after it joins them (the tie to the thread model is C01's; here the oracle is what was SENT, per alias)
         from harness import threads_c04 as T
-        return [self.gen_one(rng, tier) for _ in range(self.N[tier])] + \
+        cases = [self.gen_one(rng, tier) for _ in range(self.N[tier])] + \
             [dict(T.gen_record_replay(rng), model=False) for _ in range(self.THREADS[tier])]
+        # + operations that replay a reference recording while they are recorded (outside the model; known finding K10)
+        for _ in range(self.THREADS[tier] // 4):
+            steps = [[rng.choice(['in', 'out', 'out']), rng.randint(0, 3)] for _ in range(rng.randint(1, 5))]
+            steps.insert(rng.randint(0, len(steps)), ['play', rng.choice(['known', 'known', 'unknown'])])
+            cases.append({'kind': 'playinside', 'model': False, 'steps': steps, 'end': rng.choice(['ret', 'ret', 'raise'])})
+        return cases
 
     def run_impl(self, case):
+        if case.get('kind') == 'playinside':
+            from harness.props.c05 import C05
+            return C05.run_playinside_case(self, case)
         if case.get('kind') == 'threads':
             from harness import threads_c04 as T
             return T.run_record_replay_threads(case)
         return super(C03, self).run_impl(case)
 
     def features(self, case, impl):
+        if case.get('kind') == 'playinside':
+            return ['replay-inside-a-recorded-operation' + (':outputs-before-and-after' if self.k10_shape(case) else '')]
         if case.get('kind') == 'threads':
             return ['threads:outputs-from-%d-workers+main' % len(case['workers'])]
         return super(C03, self).features(case, impl)
 
     def sample_repr(self, case):
-        return case if case.get('kind') == 'threads' else super(C03, self).sample_repr(case)
+        return case if case.get('kind') in ('threads', 'playinside') else super(C03, self).sample_repr(case)
 
     @staticmethod
     def sent_by_threads(case):
@@ -209,7 +224,22 @@ class C03(RecorderProp):
                 out['output: _tape_recorder_operation #1.output'] = ['sent', ['exc:' + st['t']], []]
         return out
 
+    @staticmethod
+    def k10_shape(case):
+        """the operation sends an output on one alias before AND after a replay it starts itself"""
+        kinds = [st[0] for st in case['steps']]
+        return any(k == 'play' and 'out' in kinds[:i] and 'out' in kinds[i + 1:] for i, k in enumerate(kinds))
+
     def oracle(self, case, impl):
+        if case.get('kind') == 'playinside':
+            if impl.get('recorded_snd') is None:
+                return []       # (not saved: C05's business)
+            sent = [st[1] for st in case['steps'] if st[0] == 'out']
+            want = [['output: snd #%d.output' % (i + 1), a] for i, a in enumerate(sent)]
+            if impl['recorded_snd'] != sorted(want):
+                return [K10_PREFIX + 'the operation sent %r on alias snd around a replay it started itself (steps %r), its recording holds %r'
+                        % (sent, case['steps'], impl['recorded_snd'])]
+            return []
         if case.get('kind') == 'threads':
             fails = []
             want = self.sent_by_threads(case)
@@ -248,15 +278,19 @@ class C03(RecorderProp):
     def known_finding(self, case, failures):
         if case.get('mutate_after_send'):
             return 'output-args-not-copied'
+        if case.get('kind') == 'playinside' and self.k10_shape(case) and failures and all(f.startswith(K10_PREFIX) for f in failures):
+            return K10
         return None
 
     def nontrivial(self, case, impl):
+        if case.get('kind') == 'playinside':
+            return True
         if case.get('kind') == 'threads':
             return True
         return any(sp['kind'] == 'out' for sp in case['sites'].values())
 
     def shrink(self, case):
-        if case.get('kind') == 'threads':
+        if case.get('kind') in ('threads', 'playinside'):
             return
         for ri in range(len(case['runs'])):
             sc = case['runs'][ri]['script']
